@@ -28,6 +28,12 @@ Proof.
     + rewrite E, Ee. reflexivity.
 Qed.
 
+Lemma wf_pomdp_weaken : forall m, wf_pomdp m -> wf_pomdp1 m.
+Proof.
+  intros m [[H1 [H2 [H3 [H4 H5]]]] H6]. split; [| exact H6].
+  split; [exact H1|]. split; [exact H2|]. split; [exact H3|]. split; [lra| exact H5].
+Qed.
+
 Section IP.
   Variable prune : vlist -> vlist.
   Hypothesis prune_sub : forall l e, In e (prune l) -> In e l.
@@ -37,7 +43,7 @@ Section IP.
 
   Variable m : pomdp.
   Let S := nS (pm m).
-  Hypothesis Hwf : wf_pomdp m.
+  Hypothesis Hwf : wf_pomdp1 m.
   Hypothesis Hclean : obs_clean m.
   Hypothesis Hsched : ops_ok (nO m) = true.
 
